@@ -241,10 +241,19 @@ def gen_history(rng, crash_step='random'):
             elif a < 0.67:
                 for _ in range(rng.randint(1, 3)):
                     ops.append(['w', rng.randint(0, fs), rng.choice([0.01, 1.0])])
-            elif a < 0.93:
+            elif a < 0.90:
                 ops.append(['save', rng.choice([None, 1, 2, 3, 4, 5, 6]) if crash_step == 'random' else None])
             elif a < 0.97:
-                ops.append(['unlink', rng.randrange(4)])
+                if rng.random() < 0.5:
+                    # the newest file (possibly the one the reader has just consumed) is deleted externally; the reader polls
+                    # once more, saves, the producer goes on writing - nothing written afterwards may be skipped
+                    ops.append(['unlink', -1])
+                    ops.append(['read'])
+                    ops.append(['save', None])
+                    for _ in range(rng.randint(1, 3)):
+                        ops.append(['w', rng.randint(0, fs), rng.choice([0.01, 1.0])])
+                else:
+                    ops.append(['unlink', rng.randrange(4)])
             else:
                 ops.append(['abandon'])
         if rng.random() < 0.4:
